@@ -170,8 +170,22 @@ def call_init(c, with_post=True, via=None):
         if a:
             f = f(**a)
         f = f(**b)
-        return f(*shape)
-    return f(*shape, **kw)
+        out = f(*shape)
+    else:
+        out = f(*shape, **kw)
+    # the arrays handed over as arguments (ring / line weights, per-column scalings) are the caller's: an initialiser
+    # must not write into them, whatever post-processing it applies to its result
+    for k_ in ("weights", "input_scaling"):
+        if isinstance(kw.get(k_), np.ndarray):
+            ref = np.array(c["kw"][k_] if k_ == "weights" else c["input_scaling"], dtype=kw[k_].dtype)
+            if ref.shape == kw[k_].shape and not np.array_equal(kw[k_], ref):
+                raise ArgumentOverwritten(f"{c['init']}(...): the array handed over as `{k_}` was overwritten by the call "
+                                          f"(first entries {kw[k_].ravel()[:3].tolist()} instead of {ref.ravel()[:3].tolist()})")
+    return out
+
+
+class ArgumentOverwritten(Exception):
+    pass
 
 
 def to_dense(M):
